@@ -211,8 +211,8 @@ func NdJSON(raw []byte, limit uint32) bool {
 	var l []byte
 	for len(raw) != 0 {
 		l, raw = scanLine(raw)
-		_, inspected, firstToken, _ := json.Parse(json.QueryNone, l)
-		if len(l) != inspected {
+		parsed, _, firstToken, _ := json.Parse(json.QueryNone, l)
+		if len(l) != parsed {
 			return false
 		}
 		if firstToken == json.TokArray || firstToken == json.TokObject {
